@@ -197,9 +197,12 @@ Contract == pc = "done" => CompileTags(I, HT, inp, res) = {} /\ CutsetTags(I, HT
 \* spec -> impl: every (input, outcome) pair of the model is printed; the harness compiles the same inputs with the real
 \* Mdd<LAST_EXACT_LAYER> / Mdd<FRONTIER> and tools/ddcheck.py checks that each real outcome is one of the model's outcomes
 CsKey(c) == [x |-> c.st.x, depth |-> c.depth, value |-> c.value, ub |-> c.ub]
+\* the thresholds the compilation writes into an empty cache (values beyond +-PosInf/2 are "infinite" on both sides)
+CuKey(u) == [d |-> u.d, x |-> u.st.x, v |-> IF u.v >= PosInf \div 2 THEN PosInf ELSE IF u.v <= NegInf \div 2 THEN NegInf ELSE u.v, e |-> u.e]
 Emit == pc = "done" => PrintT(<<"OUT", ToJson([ii |-> ii, cut |-> cut, type |-> inp.type, width |-> inp.width, lb |-> inp.best_lb,
                                                root |-> [depth |-> inp.root.depth, x |-> inp.root.st.x, value |-> inp.root.value, path |-> inp.root.path],
-                                               exact |-> res.exact, bv |-> res.bv, bev |-> res.bev, cs |-> {CsKey(c) : c \in res.cs}])>>)
+                                               exact |-> res.exact, bv |-> res.bv, bev |-> res.bev, cs |-> {CsKey(c) : c \in res.cs},
+                                               cu |-> {CuKey(u) : u \in res.cu}])>>)
 \* C13: number of states expanded per layer (restricted: every layer; relaxed: from the third layer on)
 C13_Width == pc = "done" => \A L \in DOMAIN maxExpanded :
                 (inp.type = "restricted" \/ (inp.type = "relaxed" /\ L >= 3)) => maxExpanded[L] <= inp.width
